@@ -68,6 +68,9 @@ function spellJs(s, k) {
     else if (cp === 0) esc = nextDigit ? '\\x00' : '\\0'
     else if (mode === 1 && cp <= 0xff) esc = '\\x' + hexCase(cp.toString(16).padStart(2, '0'), k)
     else if (mode === 2 && cp <= 0xffff && !(cp >= 0xd800 && cp <= 0xdfff)) esc = '\\u' + hexCase(cp.toString(16).padStart(4, '0'), k)
+    // an astral character as a surrogate pair of escapes, or as a code point escape
+    else if (mode === 1 && cp > 0xffff) esc = '\\u' + hexCase(ch.charCodeAt(0).toString(16), k) + '\\u' + hexCase(ch.charCodeAt(1).toString(16), k >> 1)
+    else if (mode === 2 && cp > 0xffff) esc = '\\u{' + hexCase(cp.toString(16), k) + '}'
     else if (mode === 1) esc = { 9: '\\t', 8: '\\b', 12: '\\f', 11: '\\v' }[cp] || null
     out += esc === null ? ch : esc
   }
